@@ -132,6 +132,8 @@ def handle (toks : List String) (impl : String) : Verdict :=
               | some f' => if f' = f then none else some "serialised file parses back to a different file"
               | none => some "serialised file does not parse back"
             | none => some "unparseable result"
+          else if impl.startsWith "roundtrip" ∨ impl.startsWith "pretty-roundtrip" then
+            some "serialising the accepted file and parsing it back does not give an equal file"
           else none
         { model := some s!"ok {out}", oracle := o }
       | none => { model := some "err" }
@@ -148,7 +150,14 @@ def handle (toks : List String) (impl : String) : Verdict :=
     | some a =>
       let ps := a.payloads
       let m := if ps.isEmpty then "-" else ";".intercalate (ps.map showPayload)
-      { model := some m }
+      -- spec: one payload item per assertion, with exactly its fields, prefix - bgpsec - aspa
+      let spec : List String :=
+        a.pas.map (fun x => showPayload (.origin ⟨x.mlp, x.asn⟩)) ++
+        a.bgpsec.map (fun x => showPayload (.routerKey ⟨x.ski, x.asn, x.key⟩)) ++
+        (a.aspa.getD []).map (fun x => showPayload (.aspa ⟨x.customer, x.providers⟩))
+      let specStr := if spec.isEmpty then "-" else ";".intercalate spec
+      { model := some m,
+        oracle := if impl = specStr then none else some "an assertion does not yield the payload item with exactly its fields" }
     | none => badOp "args"
   | ["new", ft, ast] =>
     match (parseTree ft).bind Filters.fromJson, (parseTree ast).bind Assertions.fromJson with
